@@ -69,6 +69,7 @@ let () = register "reader" (fun ic ->
     | [] -> print_endline ""
     | path :: ops ->
       let buf = Buffer.create 4096 in
+      let t0 = Unix.gettimeofday () in
       let st : rdm_st option ref = ref None in
       let dead = ref false in
       let first = ref true in
@@ -188,4 +189,9 @@ let () = register "reader" (fun ic ->
                     | _ -> Buffer.add_string buf " ?"))
             end) ops
       with e -> Buffer.add_string buf (" MODELFAIL " ^ Printexc.to_string e));
+      (* RDM_SLOW=<seconds>: report lines that took longer on stderr (performance diagnosis only) *)
+      (match Sys.getenv_opt "RDM_SLOW" with
+       | Some lim -> let dt = Unix.gettimeofday () -. t0 in
+         if dt > float_of_string lim then prerr_endline (Printf.sprintf "SLOW %.1fs %s" dt (String.sub line 0 (min 400 (String.length line))))
+       | None -> ());
       print_endline (Buffer.contents buf)))
